@@ -191,6 +191,21 @@ func newMatchGen(rng *rand.Rand, nPathOnly, nHost, maxTab, pathLen, maxPaths int
 		for _, h := range awkwardHosts {
 			g.Hosts, _ = uniqueAppend(g.Hosts, hseen, h)
 		}
+		// hosts that instantiate the hostname patterns of the pool, exact and with a port / trailing dot
+		nd := 0
+		for _, pat := range g.Pool {
+			i := strings.IndexByte(pat, '/')
+			if i <= 0 || nd >= 10 {
+				continue
+			}
+			inst := instantiatePattern(rng, pat[:i], []string{"a", "b", "ab"})
+			before := len(g.Hosts)
+			g.Hosts, _ = uniqueAppend(g.Hosts, hseen, inst)
+			if rng.Intn(3) == 0 {
+				g.Hosts, _ = uniqueAppend(g.Hosts, hseen, inst+":8080")
+			}
+			nd += len(g.Hosts) - before
+		}
 		for _, h := range hs {
 			g.Hosts, _ = uniqueAppend(g.Hosts, hseen, h)
 		}
